@@ -127,7 +127,7 @@ func (s *sqSubj[T]) ModelApply(op Op) {
 		if len(s.m) > 0 {
 			s.m = slices.Clone(s.m[1:])
 		}
-	case "Peek":
+	case "Peek", "Churn": // (Churn: Step applies its put/take pairs to the model one by one)
 	case "Clear":
 		s.m = nil
 	case "Shrink": // remove (in removal order) until op.A[0] elements are left
@@ -182,6 +182,23 @@ func (s *sqSubj[T]) Step(op Op, o *Oracle) {
 		}
 	case "Clear":
 		s.c.Clear()
+	case "Churn": // op.A[0] put/take pairs: nothing but the counters a container may keep grows
+		for i := 0; i < op.A[0]; i++ {
+			x := s.d.At((op.A[1] + i) % len(s.d.Tab))
+			s.put(x)
+			s.modelPut(x)
+			v, ok := s.take()
+			if len(s.m) == 0 || !ok || !sameElem(s.d, v, s.m[0]) {
+				if o.On("C05") {
+					o.Fail("C05", "removal-order", "pair %d of a long run of put/take pairs: take returned (%s,%v), model (removal order) %s", i, s.d.Str(v), ok, joinS(s.m, s.d.Str))
+				}
+				break
+			}
+			s.m = slices.Clone(s.m[1:])
+			if i%512 == 0 {
+				opSteps = 0
+			}
+		}
 	case "Shrink":
 		for n := len(s.m); n > op.A[0]; n-- {
 			s.take()
